@@ -8,6 +8,7 @@ import (
 	"os/exec"
 	"sort"
 	"strings"
+	"time"
 	"verifmc/univ"
 
 	yaml "gopkg.in/yaml.v2"
@@ -111,7 +112,9 @@ func c02Orders(n int) [][]int {
 //	1: strings that look like numbers mixed with strings that do not, empty, blank, signs, non-ASCII
 //	2: keys of mixed Go types in a map[any]any (ints of several widths, floats, bools, strings)
 //	3: keys that are DISTINCT Go values but EQUAL Liquid values (1, int64(1), 1.0, uint8(1); "k" and a named string "k")
-const c02KeyStyles = 4
+//	4: keys that are neither numbers nor strings: times - every third one the SAME instant read in another zone (distinct
+//	   Go values, distinct printed forms, equal under Time.Equal/Before) - in a map[any]any
+const c02KeyStyles = 5
 
 var c02TrickyKeys = []string{"10", "9", "2xx", "404", "1000", "a", "B", "", "1e3", "-1", "01", "k", " ", "é", "A", "b", "00", "2",
 	"x2", "0x1f", "1_0", "٣", "10 ", "+5", "5.0", "NaN", "b2"}
@@ -125,6 +128,15 @@ var c02EqualKeys = func() []any {
 		ks = append(ks, v, int64(v), float64(v), uint8(v), int32(v))
 	}
 	return append(ks, "k", univ.NamedString("k"))
+}()
+
+var c02TimeKeys = func() []any {
+	zones := []*time.Location{time.UTC, time.FixedZone("CET", 3600), time.FixedZone("EST", -5*3600)}
+	var ks []any
+	for i := 0; i < 27; i++ {
+		ks = append(ks, time.Date(2024, 3, 1+(i/3)%4, 12, 0, i/12, 0, time.UTC).In(zones[i%3]))
+	}
+	return ks
 }()
 
 func c02Bindings(n int, order []int) map[string]any { return c02BindingsK(n, order, 0) }
@@ -142,6 +154,9 @@ func c02BindingsK(n int, order []int, style int) map[string]any {
 		}
 		if style == 3 {
 			return c02EqualKeys[i]
+		}
+		if style == 4 {
+			return c02TimeKeys[i]
 		}
 		return skey(i)
 	}
